@@ -92,6 +92,7 @@ type c08run struct {
 	tolerate  bool // a store error hit the current registration: only safety is demanded
 	phase     int           // where inside a heartbeat interval an extra lookup is made (0 none, 1 middle, 2 shortly before the next heartbeat)
 	lastHB    time.Duration // when the server last heard from the current connection (handshake or heartbeat)
+	quick     bool          // the client does not pause after the handshake reply: its next event meets the part of the handshake the server does after replying
 	closeErr  time.Duration // when a close was hit by an injected store error (0 = none): the runtime state may lag until its own lifetime has passed
 	moved     bool
 	crossed   bool
@@ -107,7 +108,7 @@ func init() {
 	Register(&Scenario{
 		ID:    "C08",
 		Level: "exploration",
-		Rule: "each run wires 2-3 real server nodes over one shared backend drawn from {redis, memory, tiered(local memory + shared redis + persistent map)} with a drawn connection-record lifetime {5 min, 30 s}, heartbeat period {10 s, 30 s, 7 s, 25 s} (dividing and not dividing the record lifetime) and heartbeat timeout {60 s, 90 s}; one scripted client registers on a drawn node and then follows a drawn history of 3-10 events: heartbeat for {20 s .. 11 min} (total up to 30 simulated minutes), reconnect to a drawn node (older connection closed before / after / at a drawn point inside the new two-phase login without waiting for the old node / never closed so that the old node sweeps it after its heartbeat timeout), close (transport close or Disconnect command), crash of the current node (store handle fenced, no cleanup; then either silence for record lifetime + 150 s or an immediate login elsewhere), failed login and tunnel-type handshake of the same client on a drawn node, one slow (20 ms) store round trip on the node whose connection is being replaced / closed while it handles a heartbeat, injected store error on the k-th (k=1..3) shared-record write of one login or on the k-th (k=1..6) shared-record read/write the closing node issues during a close (runs with store errors contain no failed-login / tunnel events), a heartbeat still in flight on the older connection while the client logs in again, a silent client whose late heartbeat arrives at the instant of the node's stale sweep, the node closing the connection itself (SessionManager.CloseConnection, as a kick / administrative disconnect does) from another task while a heartbeat of that connection is being handled. " +
+		Rule: "each run wires 2-3 real server nodes over one shared backend drawn from {redis, memory, tiered(local memory + shared redis + persistent map)} with a drawn connection-record lifetime {5 min, 30 s}, heartbeat period {10 s, 30 s, 7 s, 25 s} (dividing and not dividing the record lifetime) and heartbeat timeout {60 s, 90 s}; one scripted client registers on a drawn node and then follows a drawn history of 3-10 events: heartbeat for {20 s .. 11 min} (total up to 30 simulated minutes), reconnect to a drawn node (older connection closed before / after / at a drawn point inside the new two-phase login without waiting for the old node / never closed so that the old node sweeps it after its heartbeat timeout), close (transport close or Disconnect command), crash of the current node (store handle fenced, no cleanup; then either silence for record lifetime + 150 s or an immediate login elsewhere), failed login and tunnel-type handshake of the same client on a drawn node, one slow (20 ms) store round trip on the node whose connection is being replaced / closed while it handles a heartbeat, injected store error on the k-th (k=1..3) shared-record write of one login or on the k-th (k=1..6) shared-record read/write the closing node issues during a close (runs with store errors contain no failed-login / tunnel events), a heartbeat still in flight on the older connection while the client logs in again, a silent client whose late heartbeat arrives at the instant of the node's stale sweep, a connection that is closed (by the client, by Disconnect command, by the node) or superseded by a login on a drawn node immediately after its handshake reply, i.e. while the server still does the part of the handshake that follows the reply, optionally with one slow store round trip in that login, the node closing the connection itself (SessionManager.CloseConnection, as a kick / administrative disconnect does) from another task while a heartbeat of that connection is being handled. " +
 			"After every event, after every heartbeat and (per-run choice) in the middle of / 700 ms before the end of every heartbeat interval, FindClientNode and the client runtime state are read on the surviving nodes and compared with the reference (node, connection) of the most recent successful control handshake still open. " +
 			"Non-trivial: the client moved to another node while its older connection was still open, or stayed connected past the record lifetime, or a crash / store error fired; distinct = distinct schedule hashes of such runs.",
 		Real: []string{"internal/protocol/session SessionManager (handshake, heartbeat, CloseConnection, stale-connection sweep), connstate.Store, client registry", "internal/app/server ServerAuthHandler", "internal/cloud services/client state service + repos.ClientStateRepository", "internal/core/storage hybrid + memory + redis backends wired as storage.go/createHybridStorageTyped does", "internal/protocol/adapter BaseAdapter read loop", "internal/stream StreamProcessor"},
@@ -250,7 +251,7 @@ func (r *c08run) viol(sig, format string, a ...any) {
 		fmt.Sprintf(format, a...), r.backend, r.ttl, r.hb, r.hbTO, len(r.nodes), strings.Join(tailStr(r.hist, 30), "\n"))
 }
 
-var c08Priority = []string{"store-error-on-close", "store-error", "crash", "heartbeat-vs-", "server-close", "tunnel-handshake", "failed-login", "old-closed-concurrently", "old-closed-after", "old-abandoned", "same-node-reconnect", "record-lifetime-elapsed", "close", "disconnect-command", "reconnect", "first-connect"}
+var c08Priority = []string{"store-error-on-close", "store-error", "crash", "handshake-then-", "heartbeat-vs-", "server-close", "tunnel-handshake", "failed-login", "old-closed-concurrently", "old-closed-after", "old-abandoned", "same-node-reconnect", "record-lifetime-elapsed", "close", "disconnect-command", "reconnect", "first-connect"}
 
 // tag names the kind of history between the last all-matching check and now.
 func (r *c08run) tag(index string) string {
@@ -485,7 +486,9 @@ func (r *c08run) handshake(j int, first bool, at int, during func()) *c08conn {
 	}
 	cc := &c08conn{cl: cl, node: j, open: true, at: r.w.Now()}
 	// let the server finish the post-reply part of the handshake (registration happens after the reply is written)
-	r.settle()
+	if !r.quick {
+		r.settle()
+	}
 	cc.connID = r.nodes[j].node.ConnID(cl)
 	return cc
 }
@@ -708,8 +711,8 @@ func c08Run(w *simrt.World, tier string) {
 	}
 
 	for ev := 0; ev < nev && len(r.alive()) > 0; ev++ {
-		kind := c.Intn(14, "event")
-		if r.cur == nil && kind != 5 {
+		kind := c.Intn(16, "event")
+		if r.cur == nil && kind != 5 && kind != 14 && kind != 15 {
 			connect(aliveIdx("connect.node"), 0)
 			continue
 		}
@@ -843,6 +846,86 @@ func c08Run(w *simrt.World, tier string) {
 				r.logf("nothing reconnects for %v", wait)
 				r.check("record lifetime after crash", nil)
 			}
+		case kind == 14 || kind == 15: // the client's next event follows the handshake reply at once (abort / kick right after login, fast fail-over)
+			if r.cur != nil {
+				r.dropOlds()
+				r.cur.cl.Close()
+				r.cur = nil
+				r.settle()
+			}
+			if len(r.alive()) == 0 || r.tolerate {
+				continue
+			}
+			j := aliveIdx("quick.node")
+			jn := r.nodes[j]
+			if k := c.Intn(14, "quick.slow.op"); k > 0 {
+				jn.slow(k, 20*time.Millisecond) // one store round trip of the login (before or after its reply) is slow
+			}
+			r.quick = true
+			a := r.handshake(j, false, 0, nil)
+			r.quick = false
+			if a == nil {
+				r.viol("C08:login:refused-valid-credentials", "a correct login on %s was refused without any injected fault", jn.id)
+				jn.slowAt = 0
+				continue
+			}
+			r.resetEpisode()
+			r.closeErr = 0
+			if kind == 14 {
+				how := c.Intn(3, "quick.close.how")
+				switch how {
+				case 0:
+					a.cl.Close()
+				case 1:
+					a.cl.SendCommand(&packet.CommandPacket{CommandType: packet.Disconnect, CommandId: "bye"})
+					a.cl.Close()
+				default:
+					sm := jn.node.SM
+					kick := w.Spawn(fmt.Sprintf("quick-kick-%d", ev), func() {
+						w.Yield("c08.quick.kick")
+						sm.CloseConnection(a.connID)
+					})
+					kick.Wait()
+					a.cl.Close()
+				}
+				w.Sleep(25 * time.Millisecond)
+				jn.slowAt = 0
+				r.settle()
+				r.logf("client logs in on %s conn=%s and the connection is closed at once (%s)", jn.id, a.connID, []string{"client closes", "disconnect command", "node closes it"}[how])
+				r.event("handshake-then-close")
+				r.check("after a close that follows the handshake reply at once", nil)
+				w.Probe("handshake-then-close")
+				continue
+			}
+			// fast fail-over: the next login (drawn node) starts as soon as the first reply is in
+			k2 := aliveIdx("quick.node2")
+			b := r.handshake(k2, false, 0, nil)
+			w.Sleep(25 * time.Millisecond)
+			jn.slowAt = 0
+			r.settle()
+			if b == nil {
+				r.viol("C08:login:refused-valid-credentials", "a correct login on %s was refused without any injected fault", r.nodes[k2].id)
+				a.cl.Close()
+				r.settle()
+				continue
+			}
+			r.cur = b
+			r.lastHB = b.at
+			where := c08where(a, b)
+			if where == "other-node" {
+				r.moved = true
+			}
+			r.olds = append(r.olds, a)
+			r.event("handshake-then-failover:" + where)
+			r.logf("client logs in on %s conn=%s and at once again on %s conn=%s", jn.id, a.connID, r.nodes[k2].id, b.connID)
+			r.check("after a fail-over that follows the first handshake reply at once", nil)
+			r.closeOld(a)
+			r.olds = r.olds[:len(r.olds)-1]
+			r.settle()
+			r.event("handshake-then-failover:" + where)
+			r.logf("client closes the first connection %s on %s", a.connID, jn.id)
+			r.check("after closing the first connection of the fail-over", nil)
+			w.Probe("handshake-then-failover")
 		case kind == 13: // the node itself closes the connection (kick / administrative disconnect), possibly while a heartbeat is being handled
 			r.dropOlds()
 			r.settle()
